@@ -54,6 +54,11 @@ def main():
         rc0, o0 = sh([PY, demo], cwd=cwd, env=demo_env)
         meta["demo_clean_exit"] = rc0
         rca, oa = sh(["git", "-C", wt, "apply", os.path.join(src, "patch.diff")])
+        if rca != 0:
+            # a later fix: commit may have inserted lines next to the ones the change edits: retry with one line of context
+            rca, oa = sh(["git", "-C", wt, "apply", "-C1", os.path.join(src, "patch.diff")])
+            if rca == 0:
+                meta["applied_with_reduced_context"] = True
         meta["patch_applies"] = rca == 0
         if rca != 0:
             meta["error"] = oa[-400:]
